@@ -1057,6 +1057,10 @@ Qed.
 Lemma bind_ok {A B} (m : M A) (f : A -> M B) w w1 a : m w = (w1, Ok a) -> bind m f w = f a w1.
 Proof. intros H. unfold bind. rewrite H. reflexivity. Qed.
 
+Lemma bind_assoc {A B D} (m : M A) (f : A -> M B) (g : B -> M D) w :
+  bind (bind m f) g w = bind m (fun a => bind (f a) g) w.
+Proof. unfold bind. destruct (m w) as [w1 [a|e]]; reflexivity. Qed.
+
 Lemma getitem_view r ix shp s si w :
   lookup_slc s shp = Some si -> si_kind si = KView ->
   getitem (VWin r ix shp) s w = (w, Ok (VWin r (sub_ix ix (si_idx si)) (si_shape si))).
@@ -1448,20 +1452,20 @@ Proof.
     pose proof (get_fld_none r_se i p w Hse) as G1. fold (get_se i p) in G1.
     rewrite (bind_ok _ _ _ _ _ G1). cbn [is_none].
     pose proof (get_fld_view r_st i p w r0 ix0 shp jx' shp' Hst R1') as G2. fold (get_st i p) in G2.
-    rewrite (bind_ok _ _ _ _ _ G2).
+    rewrite bind_assoc. rewrite (bind_ok _ _ _ _ _ G2).
     (* mul0 allocates the zero array for the inner base *)
     set (w1 := set_heap w (heap w ++ [zero_buf (length jx') cx])).
     assert (Gm : mul0 (VWin r0 jx' shp') w = (w1, Ok (VWin (length (heap w)) (whole (length jx')) shp'))).
     { cbn [mul0]. unfold bind, mcplx. rewrite Hcx. destruct shp' as [|z shp']; [congruence|].
       unfold new_array, bind, halloc, ret. rewrite repeat_length. reflexivity. }
-    rewrite (bind_ok _ _ _ _ _ Gm).
+    rewrite bind_assoc. rewrite (bind_ok _ _ _ _ _ Gm).
     assert (S1 : same_old (heap w) (heap w1)) by apply same_old_alloc.
     destruct (IH w1 r0 ix0 shp jx' kx' shp' (length (heap w)) cx) as (w2 & rs & Es & Z & Hrs); auto.
     { unfold w1; cbn. rewrite app_length; cbn; lia. }
     { unfold w1; cbn. apply getbuf_app_new. }
     { destruct S1 as [_ F]. rewrite F by exact Hr0. exact Hcx. }
     { unfold w1; cbn. rewrite app_length; lia. }
-    rewrite (bind_ok _ _ _ _ _ Es). unfold ret at 1. unfold bind at 1.
+    rewrite bind_assoc. rewrite (bind_ok _ _ _ _ _ Es). unfold ret at 1. unfold bind at 1.
     destruct Z as [Zv Zl Zo Zs Zk Zse Zrs Zb Zold].
     pose proof (get_fld_view r_se i p w2 rs (whole (length ix0)) shp kx' shp' Zse R2') as G3. fold (get_se i p) in G3.
     rewrite (bind_ok _ _ _ _ _ G3). cbn [is_none setitem]. rewrite L, K.
@@ -1485,7 +1489,295 @@ Proof.
       induction h as [|b h IHh]; intros [|rs] H; cbn in *; try lia; auto. f_equal. apply IHh. lia. }
     rewrite Hz. replace (set_heap w2 (heap w2)) with w2 by (destruct w2; reflexivity).
     constructor; auto.
-    + rewrite Zv. reflexivity.
-    + rewrite Zl. reflexivity.
-    + intros j Hj. rewrite Zo by exact Hj. reflexivity.
+Qed.
+
+Lemma mul0_win r ix shp w : shp <> [] ->
+  mul0 (VWin r ix shp) w =
+    (set_heap w (heap w ++ [zero_buf (length ix) (bcplx (getbuf (heap w) r))]),
+     Ok (VWin (length (heap w)) (whole (length ix)) shp)).
+Proof.
+  intros Hne. cbn [mul0]. unfold bind, mcplx. destruct shp as [|z shp]; [congruence|].
+  unfold new_array, bind, halloc, ret. rewrite repeat_length. reflexivity.
+Qed.
+
+Lemma map2_cadd_zeros d : map2 cadd (repeat c0 (length d)) d = d.
+Proof.
+  induction d as [|[a b] d IH]; cbn; [reflexivity|]. rewrite IH. unfold cadd; cbn. reflexivity.
+Qed.
+
+Lemma nth_zeros n k : nth k (repeat c0 n) c0 = c0.
+Proof.
+  destruct (Nat.lt_ge_cases k n) as [H|H]; [apply nth_repeat|apply nth_overflow; rewrite repeat_length; exact H].
+Qed.
+
+Theorem add_se_slice_none i s p ds w r0 ix0 shp jx0 kx shp1 si :
+  i < length (roots w) -> r_se (root w i) = VNone -> r_st (root w i) = VWin r0 ix0 shp -> shp <> [] ->
+  r0 < length (heap w) ->
+  resolve ix0 shp p = Some (jx0, shp1) -> resolve (whole (length ix0)) shp p = Some (kx, shp1) ->
+  lookup_slc s shp1 = Some si -> (si_kind si = KView \/ si_kind si = KCopy) -> si_shape si <> [] ->
+  NoDup (sub_ix kx (si_idx si)) -> Forall (fun k => k < length ix0) (sub_ix kx (si_idx si)) ->
+  fits (heap w) ds (si_shape si) (length (si_idx si)) (bcplx (getbuf (heap w) r0)) ->
+  (forall r', vref ds = Some r' -> r' < length (heap w)) ->
+  exists w' rs, add_se i (s :: p) ds w = (w', Ok tt) /\
+    vars w' = vars w /\ (forall j, j <> i -> root w' j = root w j) /\ r_st (root w' i) = r_st (root w i) /\
+    r_se (root w' i) = VWin rs (whole (length ix0)) shp /\ length (heap w) <= rs /\
+    bcplx (getbuf (heap w') rs) = bcplx (getbuf (heap w) r0) /\
+    length (bdata (getbuf (heap w') rs)) = length ix0 /\
+    rd (heap w') rs (sub_ix kx (si_idx si)) = vdata (heap w) ds (length (si_idx si)) /\
+    (forall k, ~ In k (sub_ix kx (si_idx si)) -> nth k (bdata (getbuf (heap w') rs)) c0 = c0) /\
+    same_old (heap w) (heap w').
+Proof.
+  intros Hi Hse Hst Hne Hr0 R1 R2 L K N Hnd Hrg Hf Hv.
+  set (cx := bcplx (getbuf (heap w) r0)) in *.
+  pose proof (resolve_shape_ne _ _ _ _ _ Hne R1) as Hne1.
+  unfold add_se. rewrite (fits_not_none _ _ _ _ _ Hf).
+  pose proof (get_fld_none r_se i p w Hse) as G1. fold (get_se i p) in G1.
+  rewrite (bind_ok _ _ _ _ _ G1). cbn [is_none].
+  pose proof (get_fld_view r_st i p w r0 ix0 shp jx0 shp1 Hst R1) as G2. fold (get_st i p) in G2.
+  rewrite bind_assoc. rewrite (bind_ok _ _ _ _ _ G2).
+  rewrite bind_assoc. rewrite (bind_ok _ _ _ _ _ (mul0_win r0 jx0 shp1 w Hne1)). fold cx.
+  set (w1 := set_heap w (heap w ++ [zero_buf (length jx0) cx])).
+  assert (S1 : same_old (heap w) (heap w1)) by apply same_old_alloc.
+  destruct (zero_init i p w1 r0 ix0 shp jx0 kx shp1 (length (heap w)) cx) as (w2 & rs & Es & Z & Hrs); auto.
+  { unfold w1; cbn. rewrite app_length; cbn; lia. }
+  { unfold w1; cbn. apply getbuf_app_new. }
+  { destruct S1 as [_ F]. rewrite F by exact Hr0. reflexivity. }
+  { unfold w1; cbn. rewrite app_length; lia. }
+  rewrite (bind_ok _ _ _ _ _ Es).
+  destruct Z as [Zv Zl Zo Zs Zk Zse Zrs Zb Zold].
+  assert (S2 : same_old (heap w) (heap w2)) by (eapply same_old_trans; eauto).
+  assert (Hrs' : length (heap w) <= rs).
+  { destruct Hrs as [->|H]; [lia|]. unfold w1 in H; cbn in H. rewrite app_length in H. lia. }
+  assert (Hok : win_ok (heap w2) rs (sub_ix kx (si_idx si))).
+  { split; [exact Zrs|split; [exact Hnd|]]. rewrite Zb. cbn. rewrite repeat_length. exact Hrg. }
+  assert (Hf2 : fits (heap w2) ds (si_shape si) (length (si_idx si)) (bcplx (getbuf (heap w2) rs))).
+  { rewrite Zb. cbn [bcplx zero_buf]. eapply fits_same_old; eauto. }
+  assert (Hv2 : forall r', vref ds = Some r' -> r' < length (heap w2)).
+  { intros r' E. specialize (Hv r' E). destruct S2 as [Ls _]. lia. }
+  destruct (add_tail_spec i s p ds w2 rs (whole (length ix0)) shp kx shp1 si Zse R2 L K N Hok Hf2 Hv2)
+    as (w' & Et & Rr & Rv & W).
+  unfold add_tail in Et. rewrite Et.
+  exists w', rs. split; [reflexivity|].
+  destruct W as (W1 & W2 & W3 & W4 & W5 & W6).
+  assert (Er : forall j, root w' j = root w2 j) by (intros j; unfold root; rewrite Rr; reflexivity).
+  split; [rewrite Rv, Zv; reflexivity|]. split; [intros j Hj; rewrite Er; apply Zo; exact Hj|].
+  split; [rewrite Er; exact Zs|]. split; [rewrite Er; exact Zse|]. split; [exact Hrs'|].
+  split; [rewrite W5, Zb; reflexivity|]. split; [rewrite W4, Zb; cbn; apply repeat_length|].
+  split.
+  - rewrite W2. rewrite (rd_zeros (heap w2) rs (length ix0)) by (rewrite Zb; reflexivity).
+    destruct (vdata_same_old (heap w) (heap w2) ds (length (si_idx si)) S2 Hv) as [Evd _]. rewrite Evd.
+    rewrite sub_ix_length. rewrite <- (fits_length _ _ _ _ _ Hf) at 1. apply map2_cadd_zeros.
+  - split.
+    + intros k Hk. rewrite W3 by exact Hk. rewrite Zb. cbn. apply nth_zeros.
+    + split; [destruct S2; lia|]. intros r' Hr'. rewrite W6 by lia. apply S2; exact Hr'.
+Qed.
+
+(* ================================================================== reset *)
+Lemma set_se_slice_exists_none i s p w rs ixs shp jx shp1 si :
+  r_se (root w i) = VWin rs ixs shp -> resolve ixs shp p = Some (jx, shp1) ->
+  lookup_slc s shp1 = Some si -> (si_kind si = KView \/ si_kind si = KCopy) ->
+  set_se i (s :: p) VNone w =
+    (set_heap w (hwrite (heap w) rs (sub_ix jx (si_idx si)) (repeat c0 (length (si_idx si)))), Ok tt).
+Proof.
+  intros Hse Hr L K. cbn [set_se]. unfold get_se.
+  pose proof (get_fld_view r_se i p w rs ixs shp jx shp1 Hse Hr) as G.
+  rewrite (bind_ok _ _ _ _ _ G). cbn [is_none]. unfold ret at 1. unfold bind at 1.
+  rewrite (bind_ok _ _ _ _ _ G). cbn [setitem]. rewrite L.
+  assert (Hf : fits (heap w) (VScal c0 false false) (si_shape si) (length (sub_ix jx (si_idx si))) (bcplx (getbuf (heap w) rs))).
+  { split; cbn; auto. discriminate. }
+  destruct K as [K|K]; rewrite K; rewrite (assign_fits _ _ _ _ _ Hf); cbn [vdata]; rewrite sub_ix_length; reflexivity.
+Qed.
+
+Theorem reset_slice_exists i s p k w rs ixs shp jx shp1 si :
+  r_se (root w i) = VWin rs ixs shp -> resolve ixs shp p = Some (jx, shp1) ->
+  lookup_slc s shp1 = Some si -> (si_kind si = KView \/ si_kind si = KCopy) -> si_shape si <> [] ->
+  win_ok (heap w) rs (sub_ix jx (si_idx si)) ->
+  exists w', reset i (s :: p) k w = (w', Ok tt) /\ roots w' = roots w /\ vars w' = vars w /\
+    wrote (heap w) (heap w') rs (sub_ix jx (si_idx si)) (repeat c0 (length (si_idx si))).
+Proof.
+  intros Hse Hr L K N Hok. cbn [reset].
+  assert (Hl : length (repeat c0 (length (si_idx si))) = length (sub_ix jx (si_idx si)))
+    by (rewrite repeat_length, sub_ix_length; reflexivity).
+  destruct K as [K|K].
+  - pose proof (get_fld_view r_se i (s :: p) w rs ixs shp _ _ Hse (resolve_step _ _ _ _ _ _ _ Hr L K N)) as G.
+    fold (get_se i (s :: p)) in G. rewrite (bind_ok _ _ _ _ _ G). cbn [is_none].
+    rewrite (set_se_slice_exists_none i s p w rs ixs shp jx shp1 si Hse Hr L (or_introl K)).
+    eexists. split; [reflexivity|]. split; [reflexivity|]. split; [reflexivity|].
+    cbn [heap set_heap]. apply wrote_hwrite; assumption.
+  - pose proof (get_fld_view r_se i p w rs ixs shp jx shp1 Hse Hr) as G0.
+    set (hA := heap w ++ [copy_buf (heap w) rs (sub_ix jx (si_idx si))]). set (wA := set_heap w hA).
+    assert (GA : get_se i (s :: p) w = (wA, Ok (VWin (length (heap w)) (whole (length (si_idx si))) (si_shape si)))).
+    { unfold get_se. cbn [get_fld]. rewrite (bind_ok _ _ _ _ _ G0). apply getitem_copy; assumption. }
+    rewrite (bind_ok _ _ _ _ _ GA). cbn [is_none].
+    assert (HseA : r_se (root wA i) = VWin rs ixs shp) by exact Hse.
+    rewrite (set_se_slice_exists_none i s p wA rs ixs shp jx shp1 si HseA Hr L (or_intror K)).
+    eexists. split; [reflexivity|]. split; [reflexivity|]. split; [reflexivity|].
+    cbn [heap wA set_heap].
+    assert (SA : same_old (heap w) hA) by apply same_old_alloc.
+    eapply wrote_after_same_old; [exact SA|apply Hok|].
+    apply wrote_hwrite; [eapply same_old_win_ok; eauto|exact Hl].
+Qed.
+
+(* resetting a slice of a signal without sensitivity does nothing at all *)
+Theorem reset_slice_none i s p k w : r_se (root w i) = VNone -> reset i (s :: p) k w = (w, Ok tt).
+Proof.
+  intros Hse. cbn [reset]. pose proof (get_fld_none r_se i (s :: p) w Hse) as G. fold (get_se i (s :: p)) in G.
+  rewrite (bind_ok _ _ _ _ _ G). reflexivity.
+Qed.
+
+Definition keep_flag (w : world) (i : nat) (k : option bool) : bool :=
+  match k with Some b => b | None => r_keep (root w i) end.
+
+Theorem reset_root_none i k w : r_se (root w i) = VNone -> reset i [] k w = (w, Ok tt).
+Proof. intros H. cbn [reset]. unfold bind, get_root. fold (root w i). rewrite H. reflexivity. Qed.
+
+Theorem reset_root_clear i k w : r_se (root w i) <> VNone -> keep_flag w i k = false ->
+  reset i [] k w = (set_roots w (upd (roots w) i {| r_st := r_st (root w i); r_se := VNone; r_keep := r_keep (root w i) |}), Ok tt).
+Proof.
+  intros H Hk. cbn [reset]. unfold bind, get_root. fold (root w i). unfold keep_flag in Hk.
+  destruct (r_se (root w i)); [congruence| |]; rewrite Hk; reflexivity.
+Qed.
+
+(* allocation kept: the SAME object, all entries zero *)
+Theorem reset_root_keep_array i k w rs ixs shp : r_se (root w i) = VWin rs ixs shp -> keep_flag w i k = true ->
+  reset i [] k w = (set_heap w (hwrite (heap w) rs ixs (repeat c0 (length ixs))), Ok tt).
+Proof.
+  intros H Hk. cbn [reset]. unfold bind, get_root. fold (root w i). unfold keep_flag in Hk. rewrite H, Hk. reflexivity.
+Qed.
+
+Theorem reset_root_keep_scalar i k w c cx np : r_se (root w i) = VScal c cx np -> keep_flag w i k = true ->
+  reset i [] k w = (set_roots w (upd (roots w) i {| r_st := r_st (root w i); r_se := VScal c0 cx np; r_keep := r_keep (root w i) |}), Ok tt).
+Proof.
+  intros H Hk. cbn [reset]. unfold bind, get_root. fold (root w i). unfold keep_flag in Hk. rewrite H, Hk. reflexivity.
+Qed.
+
+(* ================================================================== add_sensitivity on a Signal *)
+(* first contribution: a deep copy — a fresh buffer holding the current data of ds *)
+Theorem add_se_root_first_array i w r' ix' shp' : r_se (root w i) = VNone ->
+  add_se i [] (VWin r' ix' shp') w =
+    (set_roots (set_heap w (heap w ++ [copy_buf (heap w) r' ix']))
+       (upd (roots w) i {| r_st := r_st (root w i);
+                           r_se := VWin (length (heap w)) (whole (length ix')) shp';
+                           r_keep := r_keep (root w i) |}), Ok tt).
+Proof.
+  intros H. unfold add_se. cbn [is_none]. unfold get_se. cbn [get_fld].
+  unfold bind, get_root, ret. fold (root w i). rewrite H. cbn [is_none deepcopy].
+  unfold bind, mread, mcplx, new_array, bind, halloc, ret. cbn [set_se]. unfold bind, get_root, put_root.
+  cbn. rewrite rd_length. reflexivity.
+Qed.
+
+Theorem add_se_root_first_scalar i w c cx np : r_se (root w i) = VNone ->
+  add_se i [] (VScal c cx np) w =
+    (set_roots w (upd (roots w) i {| r_st := r_st (root w i); r_se := VScal c cx np; r_keep := r_keep (root w i) |}), Ok tt).
+Proof.
+  intros H. unfold add_se. cbn [is_none]. unfold get_se. cbn [get_fld].
+  unfold bind, get_root, ret. fold (root w i). rewrite H. cbn [is_none deepcopy]. unfold ret.
+  cbn [set_se]. unfold bind, get_root, put_root. reflexivity.
+Qed.
+
+Lemma upd_same {A} (l : list A) i d : upd l i (nth i l d) = l.
+Proof.
+  revert i; induction l as [|h t IH]; intros [|i]; cbn; auto. f_equal. apply IH.
+Qed.
+
+(* later contributions are added in place: same object, entries increased by the current data of ds *)
+Theorem add_se_root_accumulate i w rs ixs shp ds :
+  i < length (roots w) -> r_se (root w i) = VWin rs ixs shp ->
+  fits (heap w) ds shp (length ixs) (bcplx (getbuf (heap w) rs)) ->
+  add_se i [] ds w =
+    (set_heap w (hwrite (heap w) rs ixs (map2 cadd (rd (heap w) rs ixs) (vdata (heap w) ds (length ixs)))), Ok tt).
+Proof.
+  intros Hi H Hf. unfold add_se. rewrite (fits_not_none _ _ _ _ _ Hf). unfold get_se. cbn [get_fld].
+  unfold bind at 1. unfold bind at 1. unfold get_root at 1. unfold ret at 1. fold (root w i). rewrite H. cbn [is_none].
+  rewrite (bind_ok _ _ _ _ _ (iadd_fits rs ixs shp ds w Hf)).
+  cbn [set_se]. unfold bind, get_root, put_root. cbn [roots set_heap heap vars].
+  replace {| r_st := r_st (nth i (roots w) root0); r_se := VWin rs ixs shp; r_keep := r_keep (nth i (roots w) root0) |}
+    with (nth i (roots w) root0).
+  - rewrite upd_same. unfold set_roots, set_heap. cbn. reflexivity.
+  - unfold root in H. destruct (nth i (roots w) root0) as [a b c]. cbn in *. subst b. reflexivity.
+Qed.
+
+Theorem add_se_none i p w : add_se i p VNone w = (w, Ok tt).
+Proof. reflexivity. Qed.
+
+(* ================================================================== reading through a final copying / scalar index *)
+Theorem get_fld_copy f i s p w r ix shp jx shp1 si :
+  f (root w i) = VWin r ix shp -> resolve ix shp p = Some (jx, shp1) ->
+  lookup_slc s shp1 = Some si -> si_kind si = KCopy ->
+  get_fld f i (s :: p) w =
+    (set_heap w (heap w ++ [copy_buf (heap w) r (sub_ix jx (si_idx si))]),
+     Ok (VWin (length (heap w)) (whole (length (si_idx si))) (si_shape si))).
+Proof.
+  intros Hf Hr L K. cbn [get_fld]. rewrite (bind_ok _ _ _ _ _ (get_fld_view f i p w r ix shp jx shp1 Hf Hr)).
+  apply getitem_copy; assumption.
+Qed.
+
+Theorem get_fld_scalar f i s p w r ix shp jx shp1 si :
+  f (root w i) = VWin r ix shp -> resolve ix shp p = Some (jx, shp1) ->
+  lookup_slc s shp1 = Some si -> si_kind si = KScalar ->
+  get_fld f i (s :: p) w =
+    (w, Ok (VScal (hd c0 (rd (heap w) r (sub_ix jx (si_idx si)))) (bcplx (getbuf (heap w) r)) true)).
+Proof.
+  intros Hf Hr L K. cbn [get_fld]. rewrite (bind_ok _ _ _ _ _ (get_fld_view f i p w r ix shp jx shp1 Hf Hr)).
+  cbn [getitem]. rewrite L, K. reflexivity.
+Qed.
+
+Lemma copy_reads h r tix :
+  rd (h ++ [copy_buf h r tix]) (length h) (whole (length tix)) = rd h r tix.
+Proof.
+  unfold copy_buf. pose proof (rd_whole_new h (rd h r tix) (bcplx (getbuf h r))) as H.
+  rewrite rd_length in H. exact H.
+Qed.
+
+(* assignment through a slice, as a post-condition *)
+Theorem set_st_slice_wrote i s p x w r ix shp jx shp1 si :
+  r_st (root w i) = VWin r ix shp -> resolve ix shp p = Some (jx, shp1) ->
+  lookup_slc s shp1 = Some si -> (si_kind si = KView \/ si_kind si = KCopy) ->
+  win_ok (heap w) r (sub_ix jx (si_idx si)) ->
+  fits (heap w) x (si_shape si) (length (si_idx si)) (bcplx (getbuf (heap w) r)) ->
+  exists w', set_st i (s :: p) x w = (w', Ok tt) /\ roots w' = roots w /\ vars w' = vars w /\
+    wrote (heap w) (heap w') r (sub_ix jx (si_idx si)) (vdata (heap w) x (length (si_idx si))).
+Proof.
+  intros Hst Hr L K Hok Hf. rewrite (set_st_slice_spec i s p x w r ix shp jx shp1 si Hst Hr L K Hf).
+  eexists. split; [reflexivity|]. split; [reflexivity|]. split; [reflexivity|].
+  cbn [heap set_heap]. apply wrote_hwrite; [exact Hok|]. rewrite sub_ix_length. eapply fits_length; exact Hf.
+Qed.
+
+(* ================================================================== decidable side conditions (for examples) *)
+Fixpoint nodupb (l : list nat) : bool :=
+  match l with [] => true | x :: t => negb (existsb (Nat.eqb x) t) && nodupb t end.
+Lemma nodupb_sound l : nodupb l = true -> NoDup l.
+Proof.
+  induction l as [|x t IH]; cbn; intros H; [constructor|].
+  apply andb_true_iff in H as [H1 H2]. constructor; [|apply IH; exact H2].
+  intros Hin. apply negb_true_iff in H1. assert (existsb (Nat.eqb x) t = true); [|congruence].
+  apply existsb_exists. exists x. split; [exact Hin|apply Nat.eqb_refl].
+Qed.
+Definition win_okb (h : list buf) (r : nat) (ix : list nat) : bool :=
+  Nat.ltb r (length h) && nodupb ix && forallb (fun k => Nat.ltb k (length (bdata (getbuf h r)))) ix.
+Lemma win_okb_sound h r ix : win_okb h r ix = true -> win_ok h r ix.
+Proof.
+  unfold win_okb. intros H. apply andb_true_iff in H as [H H3]. apply andb_true_iff in H as [H1 H2].
+  split; [apply Nat.ltb_lt; exact H1|split; [apply nodupb_sound; exact H2|]].
+  apply Forall_forall. intros k Hk. rewrite forallb_forall in H3. apply Nat.ltb_lt. apply H3; exact Hk.
+Qed.
+
+(* ---- the two sentences of the property about aliasing, as instances of the invariant *)
+Corollary mutate_after_add w i p v d : Inv w -> i < length (roots w) ->
+  sens_abs (exec (OMut v d) (exec (OAddSens i p v) w)) i = sens_abs (exec (OAddSens i p v) w) i.
+Proof.
+  intros HI Hi. destruct (isolation_step w (OAddSens i p v) HI I) as (A & _ & L).
+  destruct (isolation_step _ (OMut v d) A I) as (_ & B & _). apply B; [intros []|lia].
+Qed.
+
+Corollary same_object_two_signals w i j p q v : Inv w -> i < length (roots w) -> i <> j ->
+  let w1 := exec (OAddSens i p v) w in let w2 := exec (OAddSens j q v) w1 in
+  Inv w2 /\ sens_abs w2 i = sens_abs w1 i /\
+  forall os, protocol_run w2 os -> Forall (fun o => ~ targets o i) os -> sens_abs (run os w2) i = sens_abs w1 i.
+Proof.
+  intros HI Hi Hne w1 w2. destruct (isolation_step w (OAddSens i p v) HI I) as (A & _ & L).
+  destruct (isolation_step w1 (OAddSens j q v) A I) as (A2 & B2 & L2).
+  assert (E : sens_abs w2 i = sens_abs w1 i) by (apply B2; [cbn; congruence|fold w1 in L; lia]).
+  split; [exact A2|split; [exact E|]].
+  intros os Hp Hf. rewrite <- E. apply isolation_run; auto. fold w1 in L. fold w2 in L2. lia.
 Qed.
